@@ -200,6 +200,8 @@ def _ival(n, env, lets, depth=0):
     if k == "if":
         c = _bval(n["c"], env, lets, depth + 1)
         return _ival(n["then"] if c else n["else"], env, lets, depth + 1)
+    if k == "match":
+        return _ival(_match_arm(n, env, lets, depth + 1), env, lets, depth + 1)
     if k == "bin" and n["op"] in ("+", "-", "*"):
         a, b = _ival(n["l"], env, lets, depth + 1), _ival(n["r"], env, lets, depth + 1)
         return a + b if n["op"] == "+" else a - b if n["op"] == "-" else a * b
